@@ -74,7 +74,7 @@ Inductive expected :=
 | XFailed (es : list error).
 Definition req_free (x : site) : bool := match x with Some _ => true | None => false end.
 Definition mod_eqb (a b : name * (file * list name)) : bool :=
-  bytes_eqb (fst a) (fst b) && N.eqb (fst (snd a)) (fst (snd b)) && list_eqb bytes_eqb (snd (snd a)) (snd (snd b)).
+  bytes_eqb (fst a) (fst b) && (N.eqb (fst (snd b)) 999999 || N.eqb (fst (snd a)) (fst (snd b))) && list_eqb bytes_eqb (snd (snd a)) (snd (snd b)).
 Definition error_eqb (a b : error) : bool :=
   match a, b with
   | ENotFound x, ENotFound y => N.eqb x y
@@ -364,6 +364,11 @@ def behaviour_stream(ctx, rnd, n_random, proofs_ok, wide_widths=(140,)):
         k += 1
         add(G.data_holes_project(rnd, "luau" if k % 2 else "path", fmt, kind), GENERATORS[k % 3],
             rnd.choice([[], ["remove_unused_variable", "rename_variables"]]), None, "ordinary")
+    # required .txt files are their content verbatim: CRLF, lone CR, LF CR, NUL and control bytes, BOM, no final newline
+    for v in range(len(G.TXT_BYTES)):
+        k += 1
+        add(G.data_holes_project(rnd, "luau" if k % 3 == 0 else "path", "txt", "txt-bytes:%d" % v), GENERATORS[k % 3],
+            rnd.choice([[], [], ["remove_unused_variable", "rename_variables"]]), None, "ordinary")
     k += 1
     add(G.data_holes_project(wrnd0, "path", "json5", "json5-nonfinite"), GENERATORS[k % 3], [], None, "json5nonfinite")
     # `;` after the last statement of blocks (with a comment behind it), entry shorter / longer than the modules
